@@ -131,5 +131,13 @@ CHECKS["C12"] = dict(
          "unless eager; the secondary secret only while the device is in its password state (never when the device grants or refuses without asking); a successful interactive result contains the whole "
          "dialogue. Dialogues include hidden inputs, responses preceded by a prompt-looking line, early completion by a completion pattern, generic and network drivers.",
     note="Trusted: TLC; device-side exchange lengths; reactions delayed 0.3-2.3 ms so that typing ahead is observable. The property does not require an echo wait for interactive events, so none is demanded.")
+CHECKS["C18"] = dict(
+    category="model_checking", design_ref="DESIGN.md §5 C18, §11",
+    technique="TLA+/TLC trace validation: CallbackScn.tla generates callback lists and device dialogues; every firing (index, argument), the delivered stream and the outcome are recorded; CallbackTrace.tla "
+              "decides membership in the firing rule with delivery boundaries existentially quantified",
+    text="For each recorded firing TLC checks that the argument is the delivered stream since the last reset up to some delivery boundary (boundaries never move backwards), that the callback's trigger "
+         "(contains with default case-insensitivity / regex class, and not the not-contains text) holds on it and no earlier callback's does, and that a once-callback does not run twice; for the outcome: "
+         "complete returns the whole dialogue up to that boundary, an operation error only after a once-callback's trigger won again, a time-out only when no trigger holds on what was accumulated.",
+    note="Trusted: TLC; the recorded delivered stream (device mutex order). 300 (quick) / 2500 (thorough) operations. One genuine defect repaired (not-contains inverted).")
 PENDING_REASON = "check not built yet in this session (work in progress; see DESIGN.md §5 for the planned TLA+ specification and binding)"
 NOT_APPLICABLE = {}
